@@ -2,10 +2,11 @@
    ExtrOcamlBasic only; N/positive stay inductive. *)
 Require Extraction.
 Require Import ExtrOcamlBasic.
-From DV Require Import Lib.Base Auth.Types Gen.AuthTables Auth.Sha1 Auth.Server Auth.Keyring Spec.AuthSpec.
+From DV Require Import Lib.Base Auth.Types Gen.AuthTables Auth.Sha1 Auth.Server Auth.Keyring Auth.Transport Auth.Handover Spec.AuthSpec.
 Extraction Language OCaml.
 Extraction "model_auth.ml"
   auth_init step work_result get_identity unused_bytes render process_line sha1 hex_encode hex_decode parse_ulong
   a_state a_failures a_fd_negotiated a_outgoing a_incoming a_mech a_core mkEnv mkCreds default_context uid_of_ulong N.add N.mul N.div N.modulo
   spec_step spec_init classify hexarg_of unhex
-  env_of_world get_best_key keyring_new get_hex_key keys_before keys_after validate_context mkWorld mkKey parse_key_line strtol_prefix.
+  env_of_world get_best_key keyring_new get_hex_key keys_before keys_after validate_context mkWorld mkKey parse_key_line strtol_prefix
+  trun drive transport_init mkTenv tr_authenticated tr_recovered tr_disconnected tr_loader tr_auth.
